@@ -9,7 +9,10 @@ CONSTANTS Depth, RcvMode, SndMode, PeerRcv, PeerH1, PeerH3, Side   \* PeerRcv: t
 
 Alphabet == {"Send1", "Send3", "SendSettled", "D0acc", "D1rej", "D01rel", "DAllmod", "D2acc", "D0accU", "D1relU", "D0recvU", "Await0", "Await1", "Await2",
              \* the first link is closed with its deliveries unsettled: a later range that also names them must still resolve the other link's
-             "Close1"}
+             "Close1",
+             \* the first link is closed, attached again under its name (same handle, delivery-tags start over) and sends: a disposition that still
+             \* names a delivery of the closed attachment is not about the new delivery
+             "Cycle1"}
 VARIABLES script
 Init == script = <<>>
 Next == Len(script) < Depth /\ \E e \in Alphabet : script' = Append(script, e)
@@ -49,6 +52,9 @@ Body(sc, i, ns) ==
     [] e = "D1relU" -> <<Disp(1, 1, FALSE, "released")>> \o Body(sc, i + 1, ns)
     [] e = "D0recvU" -> <<Disp(0, 1, FALSE, "received")>> \o Body(sc, i + 1, ns)
     [] e = "Close1" -> <<[e |-> "ADetach", l |-> "L1", closed |-> TRUE], [e |-> "PFrame", perf |-> "detach", ch |-> 3, needs_prev |-> TRUE, f |-> [h |-> PeerH1, closed |-> TRUE, err |-> ""]]>> \o Body(sc, i + 1, ns)
+    [] e = "Cycle1" -> <<[e |-> "ADetach", l |-> "L1", closed |-> TRUE], [e |-> "PFrame", perf |-> "detach", ch |-> 3, needs_prev |-> TRUE, f |-> [h |-> PeerH1, closed |-> TRUE, err |-> ""]],
+                          Att("L1"), [e |-> "PFrame", perf |-> "attach", ch |-> 3, needs_prev |-> TRUE, f |-> [name |-> "L1", h |-> PeerH1, role |-> "r", snd |-> SndMode, rcv |-> PeerRcv]], LFlow(PeerH1),
+                          [e |-> "ASend", l |-> "L1", m |-> ns + 1, len |-> 20, batchable |-> TRUE]>> \o Body(sc, i + 1, ns + 1)
     [] e = "Await0" -> <<[e |-> "AAwaitOutcome", nth |-> 0]>> \o Body(sc, i + 1, ns)
     [] e = "Await1" -> <<[e |-> "AAwaitOutcome", nth |-> 1]>> \o Body(sc, i + 1, ns)
     [] e = "Await2" -> <<[e |-> "AAwaitOutcome", nth |-> 2]>> \o Body(sc, i + 1, ns)
